@@ -17,7 +17,8 @@ func init() {
 			"(R3) in receive, every path after a successful claim of a call passes exactly one inFlightDown, before the cancelled-call early return, and none on the unknown-id edge; " +
 			"(R4) in send, every nil-error return passed exactly one inFlightUp; " +
 			"(R5) arming uses time.Now().Add(readTimeout), clearing uses the zero time exactly on the '== 0' edge, and a failing SetReadDeadline becomes a ServerError at both call sites; " +
-			"(R6) every error of the reader before a call is claimed (read error, timeout) is a ServerError and the reader loop fails the client on it.",
+			"(R6) every error of the reader before a call is claimed (read error, timeout) is a ServerError and the reader loop fails the client on it." +
+			" Added after the seeded-change rounds: (R1) SetDeadline (which arms the read deadline as well) is not used on the connection at all.",
 		Residue:   "real-time behaviour (that the deadline fires, and when)",
 		Technique: "lock-set analysis, who-may-call tables, dominance and must-pass-through on the SSA CFG",
 		Run:       runC18,
